@@ -117,6 +117,16 @@ def gen(ctx):
                     add("chain", N, prec, "x", [small_mat(rnd, N) for _ in range(k)], small_vec(rnd, N))
             for _ in range(300 if q else 6000):
                 add("layer", N, prec, "x", [small_mat(rnd, N)], small_vec(rnd, N))
+            if prec == 64:
+                # double coordinates over a float-valued backend, with cancellation: every partial sum is exact in double but
+                # not in float, the final value is exact in both (the layer must work in the coordinate scalar type)
+                for _ in range(120 if q else 3000):
+                    lin = [[rnd.randrange(-3, 4) for _ in range(N)] for _ in range(N)]
+                    K = [rnd.choice([2 ** 24, 2 ** 26, 3 * 2 ** 24, 2 ** 30 + 2 ** 7]) for _ in range(N)]
+                    x = [K[j] + rnd.randrange(0, 64) for j in range(N)]
+                    t = [rnd.randrange(-3, 4) - sum(lin[i][j] * K[j] for j in range(N)) for i in range(N)]
+                    m = [y for i in range(N) for y in (lin[i] + [t[i]])]
+                    add("layermix", N, 64, "x", [m], x)
         # constructors: exhaustive arguments for N <= 2, sampled for N = 3, 4
         for kind in ("t", "s"):
             for a in R:
@@ -216,7 +226,7 @@ def oracle(case, groups):
                 if abs(Fraction(r) - t) > g * b + slack:
                     return f"{name}[{a}] = {r!r}, textbook value {float(t)!r}, |diff| {float(abs(Fraction(r) - t)):.3e} > bound {float(g * b + slack):.3e}"
         return ""
-    if op in ("apply", "layer"):
+    if op in ("apply", "layer", "layermix"):
         return cmp("A*v" if op == "apply" else "layer(x)", groups[0], tb_apply(N, mats[0], v), tb_apply(N, absl(mats[0]), absl(v)), N + 1, 1)
     if op == "ctor":
         m = ctor_matrix(N, case["kind"], mats[0])
@@ -262,7 +272,8 @@ def dline(c, out):
         return f"chain {c['N']} {p} {c['mode']} {len(c['mats'])} | " + " | ".join(W(p, m) for m in c["mats"]) + " | " + W(p, c["v"]) + " || " + out
     if c["op"] == "ctor":
         return f"ctor {c['N']} {p} {c['mode']} {c['kind']} | {W(p, c['mats'][0])} | {W(p, c['v'])} || " + out
-    return f"{c['op']} {c['N']} {p} {c['mode']} | {W(p, c['mats'][0])} | {W(p, c['v'])} || " + out
+    op = "layer" if c["op"] == "layermix" else c["op"]     # judged as the layer's A x + t (the float results arrive widened)
+    return f"{op} {c['N']} {p} {c['mode']} | {W(p, c['mats'][0])} | {W(p, c['v'])} || " + out
 
 
 def nontrivial(c):
@@ -274,7 +285,7 @@ def nontrivial(c):
 
 
 def obl_of(c):
-    return "affine_layer" if c["op"] == "layer" else "affine_exact" if c["mode"] == "x" else "affine_bound"
+    return "affine_layer" if c["op"] in ("layer", "layermix") else "affine_exact" if c["mode"] == "x" else "affine_bound"
 
 
 def evaluate(ctx, cases, cfgs, sample_rate):
